@@ -154,7 +154,7 @@ func validations(a *spec.Attr) {
 			dsl.MaxLength(*v.MaxLength)
 		}
 	}
-	if a.HasDef {
+	if a.HasDef && !a.DefFromAlias {
 		dsl.Default(goValT(a.Type, a.Default))
 	}
 	if a.View != "" {
